@@ -69,6 +69,7 @@ pub fn e1_check(id: &str) -> Option<Check> {
             p.w_hold = 1;
             p.restore = 20;
             p.w_sendh = 2;
+            p.w_aba = 1;
             p.modes = (1, 0, 2);
             Check {
                 id: "C03",
@@ -88,16 +89,17 @@ pub fn e1_check(id: &str) -> Option<Check> {
             p.w_cas = 3;
             p.w_rcu = 3;
             p.w_load = 3;
-            p.restore = 5;
-            p.null = 5;
+            p.restore = 20;
+            p.null = 12;
+            p.w_aba = 4;
             p.modes = (1, 0, 2);
             Check {
                 id: "C04",
                 profile: p,
-                deciding: &["O-chain", "O-lin", "O-acct"],
+                deciding: &["O-chain", "O-lin", "O-acct", "O-cas", "O-rcu"],
                 rule: "2-4 writer threads (swap/store/CAS/rcu) plus readers. Oracle: every write returns exactly the identity its exchange replaced in the pointer word's modification order (O-chain), history linearizable, every identity put in comes out once (end accounting). Non-trivial: two write operations on the same container overlapped.",
                 nontrivial: |_, o| o.stats.writes_overlapped > 0,
-                quick: 50_000,
+                quick: 100_000,
                 thorough: 2_000_000,
                 fixup: nofix,
             }
@@ -110,15 +112,16 @@ pub fn e1_check(id: &str) -> Option<Check> {
             p.w_load = 2;
             p.w_loadfull = 3;
             p.restore = 30;
-            p.null = 12;
+            p.null = 15;
+            p.w_aba = 4;
             p.modes = (1, 0, 2);
             Check {
                 id: "C05",
                 profile: p,
-                deciding: &["O-cas", "O-lin", "O-chain"],
+                deciding: &["O-cas", "O-lin", "O-chain", "O-rcu"],
                 rule: "compare_and_swap with current in {just loaded, stale handle, never stored, null} in every accepted form (&T, Guard, &Guard, raw), new in {fresh, re-stored handle, null}; competitors change and restore the pointer (A-B-A). Oracle: success <=> result pointer-equal to current <=> the pointer word was written by this call; failed CAS releases the rejected new; linearizable. Non-trivial: a competing write landed between the internal load and the exchange, or a value was re-stored (A-B-A) in a case with CAS.",
-                nontrivial: |_, o| (o.hs.cas_success + o.hs.cas_fail > 0) && (o.stats.cas_interfered > 0 || o.hs.restore_same > 0),
-                quick: 50_000,
+                nontrivial: |_, o| (o.hs.cas_success + o.hs.cas_fail > 0) && (o.stats.cas_interfered > 0 || o.hs.restore_same > 0 || o.hs.aba_identity > 0),
+                quick: 100_000,
                 thorough: 2_000_000,
                 fixup: nofix,
             }
@@ -131,14 +134,17 @@ pub fn e1_check(id: &str) -> Option<Check> {
             p.w_cas = 2;
             p.w_load = 3;
             p.rcu_nested = true;
+            p.restore = 25;
+            p.null = 15;
+            p.w_aba = 5;
             p.modes = (1, 0, 2);
             Check {
                 id: "C06",
                 profile: p,
-                deciding: &["O-rcu", "O-lin", "O-chain"],
+                deciding: &["O-rcu", "O-lin", "O-chain", "O-cas"],
                 rule: "2-4 threads x rcu(bump) mixed with swap/store/CAS and readers; re-entrant closures (nested load/store/rcu on the same or another container). Oracle: returned value == argument of the installing attempt; installed on top of exactly that value in the modification order; #installs == #returned calls; discarded results destroyed at return and never loaded; linearizable. Non-trivial: at least one rcu attempt was discarded because of interference.",
                 nontrivial: |_, o| o.hs.rcu_retries > 0,
-                quick: 50_000,
+                quick: 100_000,
                 thorough: 2_000_000,
                 fixup: nofix,
             }
@@ -295,6 +301,7 @@ pub fn e1_check(id: &str) -> Option<Check> {
             p.restore = 30;
             p.nofast = 60;
             p.w_hold = 2;
+            p.w_aba = 1;
             Check {
                 id: "C12",
                 profile: p,
@@ -373,7 +380,7 @@ pub fn e1_check(id: &str) -> Option<Check> {
                 deciding: &["O-panic", "O-acct", "O-tight", "O-slots", "O-lin"],
                 rule: "rcu closure panics on attempt k in 1..3 (retries forced by interference) and/or pointee destructors panic (wherever the last reference is released: single marked values, or in half of the cases 15/30/60% of all values), with guards held and concurrent readers/writers. Oracle: after catch_unwind the container holds a legitimately stored identity (unchanged for rcu panics), accounting exact, slots clean, later operations linearizable. Non-trivial: an injected panic fired.",
                 nontrivial: |_, o| o.hs.panics_injected > 0 || o.hs.panics_in_writer > 0 || o.hs.panics_in_load > 0 || o.hs.panics_in_harness > 0,
-                quick: 40_000,
+                quick: 120_000,
                 thorough: 1_500_000,
                 fixup: nofix,
             }
